@@ -541,11 +541,11 @@ Proof.
 Qed.
 
 (* ---------------------------------------------------------------- top level *)
-Theorem wkb_roundtrip c g rest : wf g = true -> wkb_read (wkb_write c g ++ rest) = Ok (expect c g, rest).
+Theorem wkb_roundtrip c g rest : wf g = true -> (depth g <= MAX_DEPTH)%nat ->
+  wkb_read (wkb_write c g ++ rest) = Ok (expect c g, rest).
 Proof.
-  intros H. unfold wkb_read, wkb_write, expect.
-  rewrite rd_wr; [reflexivity|exact H|].
-  rewrite app_length. pose proof (depth_le_len c g H (c_srid c)). lia.
+  intros H Hd. unfold wkb_read, wkb_write, expect.
+  rewrite rd_wr; [reflexivity|exact H|exact Hd].
 Qed.
 
 (* ---------------------------------------------------------------- byte orders, HEX *)
@@ -559,11 +559,11 @@ Proof.
   - change (c_dim (with_bo b c)) with (c_dim c). destruct (out_ords _ _) as [oz om].
     f_equal. f_equal. apply map_ext_in. intros h Hh. rewrite Forall_forall in H. apply H. exact Hh.
 Qed.
-Theorem byte_order_irrelevant c g : wf g = true ->
+Theorem byte_order_irrelevant c g : wf g = true -> (depth g <= MAX_DEPTH)%nat ->
   wkb_read (wkb_write (with_bo LE c) g) = wkb_read (wkb_write (with_bo BE c) g).
 Proof.
-  intros H. rewrite <- (app_nil_r (wkb_write (with_bo LE c) g)), <- (app_nil_r (wkb_write (with_bo BE c) g)).
-  rewrite !wkb_roundtrip by exact H. unfold expect. cbn [c_srid with_bo]. now rewrite !expect_at_bo.
+  intros H Hd. rewrite <- (app_nil_r (wkb_write (with_bo LE c) g)), <- (app_nil_r (wkb_write (with_bo BE c) g)).
+  rewrite !wkb_roundtrip by assumption. unfold expect. cbn [c_srid with_bo]. now rewrite !expect_at_bo.
 Qed.
 
 Lemma enc_lt b k v : Forall (fun x => x < 256) (enc b k v).
@@ -604,15 +604,16 @@ Proof.
 Qed.
 
 (* HEX text of a geometry reads back like the bytes, whatever the case of the letters *)
-Theorem hex_roundtrip c g : wf g = true -> hex_read (hex_write c g) = Ok (expect c g, []).
+Theorem hex_roundtrip c g : wf g = true -> (depth g <= MAX_DEPTH)%nat -> hex_read (hex_write c g) = Ok (expect c g, []).
 Proof.
-  intros H. unfold hex_read, hex_write. rewrite unhex_hex by apply wr_bytes.
+  intros H Hd. unfold hex_read, hex_write. rewrite unhex_hex by apply wr_bytes.
   rewrite <- (app_nil_r (wkb_write c g)). now apply wkb_roundtrip.
 Qed.
-Theorem hex_case_insensitive c g s : map upper s = hex_write c g -> wf g = true -> hex_read s = Ok (expect c g, []).
+Theorem hex_case_insensitive c g s : map upper s = hex_write c g -> wf g = true -> (depth g <= MAX_DEPTH)%nat ->
+  hex_read s = Ok (expect c g, []).
 Proof.
-  intros Hs H. unfold hex_read. rewrite (unhex_case_insensitive s (hex_write c g)).
-  - apply (hex_roundtrip c) in H. unfold hex_read in H. exact H.
+  intros Hs H Hd. unfold hex_read. rewrite (unhex_case_insensitive s (hex_write c g)).
+  - pose proof (hex_roundtrip c g H Hd) as H'. unfold hex_read in H'. exact H'.
   - rewrite Hs. unfold hex_write.
     destruct (hex_unhex (hex (wkb_write c g)) (wkb_write c g)) as [E _]; [apply unhex_hex, wr_bytes|]. exact E.
 Qed.
